@@ -151,7 +151,7 @@ fn passthrough_configs() -> Vec<SorterCfg> {
         x.block_size = Some(1024);
         v.push(x);
     }
-    for creator in [1u8, 2] {
+    for creator in [1u8, 2, 3] {
         let mut x = base.clone();
         x.creator = creator;
         v.push(x);
@@ -324,7 +324,10 @@ pub fn run(tier: Tier) -> i32 {
                 cfg.index_levels = Some(levels);
                 cfg.block_size = Some(1024);
                 cfg.interval = Some(2);
-                bulk.push(Case { inserts: Inserts::BulkLong { n: 90, keys: 60, klen: 600, vlen: 8 }, cfg, how, pool: 0 });
+                bulk.push(Case { inserts: Inserts::BulkLong { n: 90, keys: 60, klen: 600, vlen: 8 }, cfg: cfg.clone(), how, pool: 0 });
+                let mut sched = cfg;
+                sched.creator = 3;
+                bulk.push(Case { inserts: Inserts::BulkLong { n: 90, keys: 60, klen: 600, vlen: 8 }, cfg: sched, how, pool: 0 });
             }
         }
     }
@@ -359,7 +362,7 @@ pub fn run(tier: Tier) -> i32 {
     total.merge(a4);
 
     rep.acc = total;
-    rep.set("rule", json!("E2: all insert sequences of length <= n over 3 keys ('' incl.) x 4 value sizes (0, 8, 30, 600 bytes = empty / tiny / medium / larger than the whole buffer), values tagged with their insertion index, x the full product of spill-relevant settings made reachable by the hook (budget 64/160/512 B, allow_realloc, initial capacity 32/64, max_nb_chunks 1/2/3/25, stable/unstable) x 3 extraction paths (into_stream_merger_iter, write_into_stream_writer + read-back, into_reader_cursors + external Merger); pass-through settings (every codec level, block sizes, intervals, index levels, CursorVec/TempFileChunk/instrumented creator) x all shorter sequences; a hook-free group at the real 10 MiB minimum with 3 MiB values; sequential runs of 50/300/3000 entries over 3/50 keys (many duplicates per key in one sorted run; std sorts short slices by insertion, which would hide an unstable algorithm) and budgets that are not multiples of 16; parallel sort on 3000/20000 entries in pools of 1/2/4/16 threads (schedule sampling, labelled). Oracle: ordered multimap, merge = concatenation; under Unstable the multiset of pieces per key. distinct_nontrivial = runs in which the sorter created >= 2 chunks (spilled before the final flush)"));
+    rep.set("rule", json!("E2: all insert sequences of length <= n over 3 keys ('' incl.) x 4 value sizes (0, 8, 30, 600 bytes = empty / tiny / medium / larger than the whole buffer), values tagged with their insertion index, x the full product of spill-relevant settings made reachable by the hook (budget 64/160/512 B, allow_realloc, initial capacity 32/64, max_nb_chunks 1/2/3/25, stable/unstable) x 3 extraction paths (into_stream_merger_iter, write_into_stream_writer + read-back, into_reader_cursors + external Merger); pass-through settings (every codec level, block sizes, intervals, index levels, CursorVec/TempFileChunk/instrumented/short-transfer chunk storage) x all shorter sequences; a hook-free group at the real 10 MiB minimum with 3 MiB values; sequential runs of 50/300/3000 entries over 3/50 keys (many duplicates per key in one sorted run; std sorts short slices by insertion, which would hide an unstable algorithm) and budgets that are not multiples of 16; parallel sort on 3000/20000 entries in pools of 1/2/4/16 threads (schedule sampling, labelled). Oracle: ordered multimap, merge = concatenation; under Unstable the multiset of pieces per key. distinct_nontrivial = runs in which the sorter created >= 2 chunks (spilled before the final flush)"));
     rep.set("bound", json!({"max_len": max_len, "symbols": NSYM, "sequences": n_seq, "spill_configurations": cfgs.len(), "passthrough_configurations": pcfgs.len(), "passthrough_max_len": pl}));
     rep.assume("rayon's internal thread interleavings are not enumerable with the installed tools (loom/shuttle cannot intercept rayon's OS threads); pool-size variation is sampling and is not part of the exhaustive claim");
     rep.assume("the hook only rescales MIN_SORTER_MEMORY / INITIAL_SORTER_VEC_SIZE per thread; the real-constant group binds the scaled runs to the shipped thresholds");
